@@ -216,6 +216,7 @@ fn strategy_fragments() -> BoxedStrategy<Case> {
             "<div class=\"a\">", "</div>", "<p>", "</p>", "<br/>", "<img src=x>", "<style>", "</style>", "<!DOCTYPE html>", "<!doctype",
             "</SCRIPT>", "<SCRIPT>", "</scr", "ipt>", "<!-- x --!>", "--!>", "<?xml?>", "</>", "é", "日本", "&amp;", "a < b", "<xmp>", "</xmp>",
             "<iframe>", "</iframe>", "<noscript>", "</noscript>", "<title", "</title ", "</textarea\n>", "\u{0}", "<a href=\"x>y\">", "'", "\"", "=",
+            "\u{e0}", "\u{c5}", "\u{a0}", "<k\u{c5}>", "<a title=voil\u{e0}>", "</d\u{e0}>", "<a b=", "<!--!>", "<!---!>", "<!--->", "<!-->",
         ].into_iter().map(|s| s.to_string()).collect()),
         1 => "[ -~]{0,6}".prop_map(|s| s),
     ];
